@@ -7,6 +7,9 @@ git apply "$patch" || { echo "patch does not apply"; exit 2; }
 trap 'git -C /repo checkout -- . ; git -C /repo clean -fdq src tests 2>/dev/null' EXIT
 cd /verif
 for p in "$@"; do
+  # the evidence file must keep describing the unchanged tree: save it and put it back after the run against the change
+  cp -f "evidence/$p.json" "/tmp/evidence.$p.$$.json" 2>/dev/null
   out=$(./check "$p" --tier "${TIER:-quick}" 2>&1); rc=$?
+  if [ -f "/tmp/evidence.$p.$$.json" ]; then mv -f "/tmp/evidence.$p.$$.json" "evidence/$p.json"; fi
   echo "== $p rc=$rc :: $(echo "$out" | grep -E 'VIOLATION|failing input|broken obligation' | head -3 | tr '\n' ' ')"
 done
